@@ -287,7 +287,7 @@ def run(ctx):
     from vlib import env
     sdir = env.scratch()
     rec = ctx.rec
-    ndocs = ctx.pick(1500, 30000)
+    ndocs = ctx.pick(1500, 100000)
     lat = lattice_cases()
     for i, (n, vpos, cname, where, dtype, vals) in enumerate(lat):
         if not ctx.mine(i):
